@@ -56,3 +56,38 @@ impl ArcParameters {
     }
 }
 
+// Lookup stub for the typed parameter sets (`core::Parameters<Role>::get`), see the comment on the
+// lookup stubs in harness/qrecovery/c11s_streams.rs: answers from the values the harness registered
+// with `c11s_set_typed` — the SAME values it put into the real set — keyed by the id that is asked for.
+// (It lives here because Kani only accepts a stub whose `Role` parameter is impl-level like the
+// original's.)
+static mut C11S_TYPED: Option<(u64, u64, u64, u64, u64)> = None;
+
+impl ArcParameters {
+    /// (bidi_local, bidi_remote, uni, max_streams_bidi, max_streams_uni) of the typed set under test
+    pub fn c11s_set_typed(vals: (u64, u64, u64, u64, u64)) {
+        unsafe { C11S_TYPED = Some(vals) };
+    }
+}
+
+impl<Role> self::core::Parameters<Role> {
+    pub fn c11s_stub_get<V>(&self, id: ParameterId) -> Option<V>
+    where
+        V: TryFrom<ParameterValue>,
+    {
+        let t = match unsafe { C11S_TYPED } {
+            Some(t) => t,
+            None => panic!("no typed parameter set is looked at in this harness"),
+        };
+        let x = match id {
+            ParameterId::InitialMaxStreamDataBidiLocal => t.0,
+            ParameterId::InitialMaxStreamDataBidiRemote => t.1,
+            ParameterId::InitialMaxStreamDataUni => t.2,
+            ParameterId::InitialMaxStreamsBidi => t.3,
+            ParameterId::InitialMaxStreamsUni => t.4,
+            _ => panic!("a parameter that is no flow-control / stream-count parameter was requested"),
+        };
+        ParameterValue::VarInt(crate::varint::VarInt::from_u64(x).unwrap()).try_into().ok()
+    }
+}
+
